@@ -387,6 +387,23 @@ def execute(prop, scen):
     return res
 
 
+class _RefNNLS:
+    """The documented weighting rule, written out: non-negative least squares of ALL the
+    observations seen in updates so far on the members' forecasts made for them (uniform
+    weights before the first update)."""
+
+    def __init__(self, n):
+        self.weights = np.ones(n) / n
+        self.P = np.empty((0, n))
+        self.y = np.empty(0)
+
+    def update(self, y_pred, y_true):
+        from scipy.optimize import nnls
+        self.P = np.vstack([self.P, np.asarray(y_pred, float).T])
+        self.y = np.concatenate([self.y, np.asarray(y_true, float)])
+        self.weights, _ = nnls(self.P, self.y)
+
+
 class _Chain:
     """Reference for a pipeline used as a transformer step: its leaf transformers composed by
     hand (forward at fit/transform/update, every inverse in reverse order)."""
@@ -437,8 +454,7 @@ class Reference:
                 m.fit(y, fh=fh)
             self.algo = None
             if self.spec.get("algo") == "nnls":
-                from sktime.forecasting.online_learning import NNLSEnsemble
-                self.algo = NNLSEnsemble(n_estimators=len(self.members))
+                self.algo = _RefNNLS(len(self.members))
         elif k == "ttf":
             self.trs = [_Chain(t["transformers"]) if t["kind"] == "ttf_t" else C.build_transformer(t)
                         for t in self.spec["transformers"]]
